@@ -60,6 +60,8 @@ class TypeDB:
             if n in self.cdb.type_aliases:
                 mod, _, nm = self.cdb.type_aliases[n].rpartition(".")
                 return self.ann_to_ty(mod, ast.Name(id=nm))
+            if n in self.cdb.typevar_bindings:
+                return self.parse_ty(self.cdb.typevar_bindings[n])
             return TAbs(n)
         if isinstance(node, ast.Attribute):
             q = ast.unparse(node)
@@ -134,6 +136,8 @@ class TypeDB:
             if r[0] == "class":
                 return self.class_ty(r[1].qname)
             if r[0] == "typevar":
+                if r[1] in self.cdb.typevar_bindings:
+                    return self.parse_ty(self.cdb.typevar_bindings[r[1]])
                 return TAbs(r[1])
             if r[0] == "external":
                 tail = r[1].rsplit(".", 1)[-1]
